@@ -1378,8 +1378,33 @@ func (x *Exec) coverAssume(st *State, tag string, cl *Clause) {
 		return
 	}
 	x.assumeCovers[cl]++
+	// quantified facts (interference guarantees, copy axioms) are left out of the reachability query:
+	// finding a model with them is what makes solvers give up, and a contradiction between an assumed
+	// clause and the path is a ground matter
+	var ground []*Term
+	for _, a := range st.AssumeList() {
+		if !containsQuant(a, map[*Term]bool{}) {
+			ground = append(ground, a)
+		}
+	}
 	x.Obls = append(x.Obls, &Obligation{Name: x.funcLabel() + ":cover:" + tag, Kind: "cover", Func: x.funcLabel(),
-		Assumes: st.AssumeList(), Goal: TFalse, Text: "the assumption '" + cl.Text + "' leaves its path satisfiable", Cover: true, Props: cl.Props})
+		Assumes: ground, Goal: TFalse, Text: "the assumption '" + cl.Text + "' leaves its path satisfiable", Cover: true, Props: cl.Props})
+}
+
+func containsQuant(t *Term, seen map[*Term]bool) bool {
+	if t == nil || seen[t] {
+		return false
+	}
+	seen[t] = true
+	if t.Op == "forall" || t.Op == "exists" {
+		return true
+	}
+	for _, a := range t.Args {
+		if containsQuant(a, seen) {
+			return true
+		}
+	}
+	return false
 }
 
 // siteReachedObligations: a call-site assertion that no path evaluates is vacuous (the call it is
